@@ -397,6 +397,44 @@ fn main() {
         }
         run.merge(t);
     }
+    // one record with many lines: every scalar key repeated many times, interleaved (the last line
+    // for a key wins), list keys repeated, unknown keys in between; 8..5000 lines
+    {
+        let mut t = Tally::new();
+        let scalars = ["MAINTAINER", "CATEGORIES", "PKG_SKIP_REASON", "PKG_FAIL_REASON", "NO_BIN_ON_FTP", "RESTRICTED", "USE_DESTDIR", "BOOTSTRAP_PKG", "USERGROUP_PHASE", "PBULK_WEIGHT"];
+        for lines in [8usize, 20, 36, 37, 41, 64, 100, 257, 1000, 5000] {
+            for stride in [1usize, 3, 7] {
+                let mut text = String::from("PKGNAME=many-1.0\n");
+                for k in 0..lines {
+                    let key = scalars[(k * stride) % scalars.len()];
+                    text.push_str(&format!("{}={}{}\n", key, key.to_lowercase(), k));
+                    if k % 9 == 4 {
+                        text.push_str(&format!("UNKNOWN{}=u\nSCAN_DEPENDS=f{}.mk\n", k, k));
+                    }
+                }
+                text.push_str("PKGNAME=next-2.0\nMAINTAINER=other\n");
+                t.states += 1;
+                t.transitions += lines as u64;
+                check_text(&mut t, &text);
+            }
+        }
+        run.bound("many-line records: one record of 8..5000 lines in which ten scalar keys repeat interleaved with three strides (last line wins), list keys and unknown keys in between");
+        run.merge(t);
+    }
+    // many list items: ALL_DEPENDS / SCAN_DEPENDS with 2^k distinct items, each must come back
+    {
+        let ks: Vec<u32> = (8..=run.pick(17, 20) as u32).collect();
+        run.bound(format!("many list items: records with 2^k distinct ALL_DEPENDS and SCAN_DEPENDS items for k = 8..={}", ks.last().unwrap()));
+        par_items(&run, "C16 many items", &ks, |_, k, t| {
+            let n = 1usize << k;
+            let deps: Vec<String> = (0..n).map(|i| format!("dep{}-[0-9]*:../../cat{}/dep{}", i, i % 97, i)).collect();
+            let scans: Vec<String> = (0..n).map(|i| format!("../../mk/f{}.mk", i)).collect();
+            let text = format!("PKGNAME=a-1\nALL_DEPENDS={}\nSCAN_DEPENDS={}\nPKGNAME=b-2\nALL_DEPENDS={}\n", deps.join(" "), scans.join(" "), deps[..n / 2].join(" "));
+            t.states += 1;
+            t.transitions += 2 * n as u64;
+            check_text(t, &text);
+        });
+    }
     // separator sweep: each ASCII white-space character that can occur inside a line (SP TAB VT
     // FF CR), singly and in pairs, between list items, around scalar values and around keys
     {
